@@ -8,7 +8,7 @@ from ..common import q, uncps, cps, rec
 from ..progprop import ProgramProperty, results, is_exc, init_step, Getter, have, pyval
 
 SNAPSHOT = ["records", "prefix_map", "synonym_to_prefix", "reverse_prefix_map", "trie", "pattern_map"]
-FOLD_PAIRS = [("ß", "SS"), ("ss", "ß"), ("İ", "i̇"), ("K", "k"), ("ǅ", "ǆ"), ("ſ", "s")]
+FOLD_PAIRS = [("ß", "SS"), ("ss", "ß"), ("İ", "i̇"), ("K", "k"), ("ǅ", "ǆ"), ("ſ", "s"), ("ﬁ", "FI"), ("fi", "ﬁ"), ("ς", "Σ")]
 
 
 def variant(rng, s):
@@ -57,8 +57,11 @@ class C05(ProgramProperty):
         nops = rng.randint(1, 8 if tier == "quick" else 20)
         kinds = []
         for k in range(nops):
-            new = {"p": cps(gen.word(rng, 1, 3) + str(k)), "u": cps("n" + str(k) + gen.word(rng, 1, 2)), "ps": [], "us": [],
-                   "pat": None}
+            # a fifth of the names carry a character whose case folding is not its lower case (ß -> ss, ﬁ -> fi, İ, ſ, final
+            # sigma), so that later "equal up to case" overlaps separate str.casefold from str.lower / str.upper
+            odd = lambda: rng.choice(["ß", "ﬁ", "İ", "ſ", "ς", "ss", "fi"]) if rng.random() < 0.2 else ""
+            new = {"p": cps(gen.word(rng, 1, 3) + odd() + str(k)), "u": cps("n" + str(k) + odd() + gen.word(rng, 1, 2)), "ps": [],
+                   "us": [], "pat": None}
             if rng.random() < 0.4:
                 new["ps"] = [cps("s" + str(k) + gen.word(rng, 0, 1))]
             if rng.random() < 0.4:
